@@ -172,8 +172,11 @@ def transpile_with_hook(script: str):
 
     del P._VERIF_SKIPPED[:]
     try:
-        out = emit(P.parse(script))
+        with engine.time_limit(30):
+            out = emit(P.parse(script))
         status = "ok"
+    except engine.TranspileTimeout:
+        out, status = "parse()/emit() did not return within 30 s", "timeout"
     except (ValueError, SyntaxError) as e:
         out = f"{type(e).__name__}"
         status = "rejected"
@@ -335,7 +338,7 @@ def main() -> int:
     rep.sample({"layout_operators": sorted(layout.OPS)})
     rep.rule = ("(a) generated programs, multi-device scripts, README examples and a statement-kind sweep (one script per Python statement kind x "
                 "{top level, branch, loop, function body, main loop}) parsed with the REDUINO_VERIF hook on; each skipped line classified against the "
-                "allowed set; (b) re-layout operators (comment lines at any column, trailing comments incl. block headers, blank lines, indent unit "
+                "allowed set; (b) re-layout operators (do-nothing statements - pass, constant expressions, repeated imports - inserted inside blocks, comment lines at any column, trailing comments incl. block headers, blank lines, indent unit "
                 "1-8 spaces or tabs, trailing whitespace, token spacing) applied singly and in combinations, ast.dump equality as the oracle that Python "
                 "sees the same program, emitted text compared byte for byte; (c) re-laid-out generated programs through the firmware differential. "
                 "non-trivial = a skipped line was observed / a variant was compared")
